@@ -16,6 +16,7 @@ import (
 	"os"
 	"path/filepath"
 	"regexp"
+	"strings"
 	"sync"
 	"sync/atomic"
 	"testing"
@@ -151,7 +152,7 @@ func runFD(c FDCase) *vkit.Outcome {
 	commits := map[string]int{}
 	in := p.GetInput().(*fake.Plugin)
 	in.SetCommitFn(func(e *pipeline.Event) {
-		id := e.Root.Dig("id").AsString()
+		id := strings.Clone(e.Root.Dig("id").AsString()) // AsString aliases the event's buffer, which is reused
 		mu.Lock()
 		commits[id]++
 		mu.Unlock()
